@@ -495,7 +495,12 @@ class IMAPSearch:
         msg = self.ctx.msg()
         if "date" not in msg:
             return False
-        msg_date = parsedate(msg["date"]).date()
+        try:
+            msg_date = parsedate(msg["date"]).date()
+        except (TypeError, ValueError):
+            # A `Date:` that is not a date is on no day at all.
+            #
+            return False
         return msg_date < self.args["date"]
 
     #########################################################################
@@ -508,7 +513,12 @@ class IMAPSearch:
         msg = self.ctx.msg()
         if "date" not in msg:
             return False
-        msg_date = parsedate(msg["date"]).date()
+        try:
+            msg_date = parsedate(msg["date"]).date()
+        except (TypeError, ValueError):
+            # A `Date:` that is not a date is on no day at all.
+            #
+            return False
         return msg_date == self.args["date"]
 
     #########################################################################
@@ -521,7 +531,12 @@ class IMAPSearch:
         msg = self.ctx.msg()
         if "date" not in msg:
             return False
-        msg_date = parsedate(msg["date"]).date()
+        try:
+            msg_date = parsedate(msg["date"]).date()
+        except (TypeError, ValueError):
+            # A `Date:` that is not a date is on no day at all.
+            #
+            return False
         return msg_date >= self.args["date"]
 
     #########################################################################
